@@ -593,10 +593,15 @@ const rule = "state with >= 2 contracts created of which >= 1 still open; distin
 // Parts for mode C03 / C04.
 func Parts(mode string) func() []mc.Part {
 	return func() []mc.Part {
+		// thorough depths: C13 runs these next to eight other explorations inside one time budget
+		tp, tc := 9, 8
+		if mode == "C13" {
+			tp, tc = 8, 7
+		}
 		ps := []mc.Part{
-			mc.ExplorePartC("plain", New(Variant{Name: "plain", Mode: mode}), 7, 9, false, rule,
+			mc.ExplorePartC("plain", New(Variant{Name: "plain", Mode: mode}), 7, tp, false, rule,
 				&mc.ConfOpts{Stores: []string{"htlc"}, SkipDenoms: map[string]bool{"stake": true}, MaxPaths: 60}),
-			mc.ExplorePart("cross-chain", New(Variant{Name: "cross-chain", Mode: mode, Cross: true}), 6, 8, false, rule),
+			mc.ExplorePart("cross-chain", New(Variant{Name: "cross-chain", Mode: mode, Cross: true}), 6, tc, false, rule),
 			// heights are the keys of the expiry queue: this chain starts at 204, so contracts expire at 254..257
 			mc.ExplorePart("plain-at-height-204", New(Variant{Name: "plain-at-height-204", Mode: mode, InitialHeight: 204}), 6, 8, false, rule),
 		}
